@@ -356,9 +356,27 @@ func checkCanonicalParse(p *Program, r *Result, parse, rs, ivs, dec *ssa.Functio
 		for _, b2 := range rs.Blocks {
 			for _, in := range b2.Instrs {
 				if st, ok := in.(*ssa.Store); ok {
+					want := `Slice(format.splitArgs(` + l1 + `).1, 1, _)`
 					t := short(rtb.Term(st.Val).String())
-					if t == `Slice(format.splitArgs(`+l1+`).1, 1, _)` {
+					if t == want {
 						okAssign = true
+					}
+					// the merged result of a helper spliced in: nil on its error exits
+					if ph, isPhi := st.Val.(*ssa.Phi); isPhi {
+						n, all := 0, true
+						for _, e := range ph.Edges {
+							if isNilConst(e) {
+								continue
+							}
+							if short(rtb.Term(e).String()) == want {
+								n++
+							} else {
+								all = false
+							}
+						}
+						if all && n > 0 {
+							okAssign = true
+						}
 					}
 				}
 			}
